@@ -143,6 +143,7 @@ type Exec struct {
 	clock     *Term
 	clockMin  *Term
 	sleepWeak bool
+	clockExact bool
 	ranges    map[int32]urange
 	assertLog []assertRec
 	raceSeq   int
@@ -722,7 +723,7 @@ func (ex *Exec) exec(fr *Frame, in ssa.Instruction) {
 		ch, _ := ex.get(fr, x.Chan).(*ChanV)
 		ex.chanSend(ch, ex.get(fr, x.X))
 	case *ssa.Select:
-		ex.unsupported("channel operation %T", in)
+		ex.set(fr, x, ex.selectOp(fr, x))
 	default:
 		ex.unsupported("instruction %T", in)
 	}
